@@ -43,6 +43,10 @@ structure Cfg where
   /-- batch flush timeout in ns (0: disabled) -/
   timeout : Nat := 0
   initOpen : Bool := true
+  /-- reneging: a `reneged_target` is configured (`false`: reneged items are counted and discarded) -/
+  rtarget : Bool := true
+  /-- pooled: a `downstream` is configured (`false`: completed items are counted and leave) -/
+  sink : Bool := true
   /-- model only: the variant of /repo with `fixes/C08-indus-pooled-dequeued-item-overtaken.diff` and
   `fixes/C08-indus-batch-size-one-waits-for-timeout.diff` applied (the judge does not look at it) -/
   repaired : Bool := true
@@ -193,7 +197,8 @@ def judgePooled (cfg : Cfg) (j : Book) (o : Obs) : Except String Book :=
   | .fin id =>
     if !j.svc.ids.contains id then .error (S "completed-not-in-service")
     else
-      let j' := { j with finished := j.finished ++ [id], completed := j.completed + 1 }
+      -- without a downstream the completed item is counted and leaves the system
+      let j' := { j with finished := if cfg.sink then j.finished ++ [id] else j.finished, completed := j.completed + 1 }
       match j.waiting with
       | [] => .ok j'
       | w :: rest => .ok { j' with waiting := rest, transit := j.transit ++ [w] }
@@ -290,6 +295,11 @@ def expired (w : WItem) (now : Nat) : Bool :=
   | none => false
   | some p => decide (p < now - w.t)
 
+/-- reneging counters are `depth accepted dropped served reneged active`: the delivery of one dequeued
+item to the worker raised both `served` and `reneged` -/
+def countedTwice (j : Book) (o : Obs) : Bool :=
+  decide (j.served < o.ctr.getD 3 0) && decide (j.reneged < o.ctr.getD 4 0)
+
 def judgeReneging (cfg : Cfg) (j : Book) (o : Obs) : Except String Book :=
   let S := sig .reneging
   match o.act with
@@ -320,20 +330,27 @@ def judgeReneging (cfg : Cfg) (j : Book) (o : Obs) : Except String Book :=
     | none => .error (S "started-not-in-transit")
     | some w =>
       let j' := { j with transit := j.transit.filter (·.id != id) }
-      match o.res with
+      -- "exactly one of": one dequeued item is counted as served or as reneged, never as both
+      if countedTwice j o then .error (S "item-in-two-states")
+      else match o.res with
       | .start =>
         if expired w o.t then .error (S "served-after-patience")
         else .ok { j' with served := j.served + 1 }
       | .renege =>
         if !expired w o.t then .error (S "reneged-within-patience")
-        else .ok { j' with rpending := j.rpending ++ [id], reneged := j.reneged + 1 }
+        else if cfg.rtarget then .ok { j' with rpending := j.rpending ++ [id], reneged := j.reneged + 1 }
+        else .ok { j' with rdone := id :: j.rdone, reneged := j.reneged + 1 }   -- rejected-and-counted, discarded
       | _ => .error (S "accepted-item-discarded")
   | .fin id =>
     if !j.svc.ids.contains id then .error (S "completed-not-in-service")
     else .ok { j with finished := j.finished ++ [id], completed := j.completed + 1 }
-  | .done id => judgeDone .reneging j id
+  | .done id =>
+    if j.rpending.contains id || j.rdone.contains id then .error (S "item-in-two-states")   -- reneged, yet completed
+    else judgeDone .reneging j id
   | .rdone id =>
-    if j.rdone.contains id then .error (S "reneged-twice")
+    if j.svc.ids.contains id || j.finished.contains id || j.done.contains id then
+      .error (S "item-in-two-states")                                                        -- served, yet reneged
+    else if j.rdone.contains id then .error (S "reneged-twice")
     else if j.rpending.head? != some id then .error (S "reneged-delivery-unexpected")
     else .ok { j with rpending := j.rpending.erase id, rdone := id :: j.rdone }
   | _ => .error (S "malformed-observation")
